@@ -27,7 +27,7 @@ func init() {
 			"join|split is checked for single-character separators; multi-character separators are a recorded known finding (the engine's own test suite fixes split-on-any-character semantics)",
 			"valid UTF-8 inputs only (values travel through json_encode)",
 		},
-		quick: 120000, thorough: 3000000, minQuick: 50000, minThorough: 800000,
+		quick: 300000, thorough: 3000000, minQuick: 50000, minThorough: 800000,
 	}})
 }
 
